@@ -3,6 +3,7 @@ package main
 import (
 	"context"
 	"fmt"
+	"io"
 	"strconv"
 	"strings"
 	"time"
@@ -12,7 +13,7 @@ import (
 
 // suite close (C06, C16): sequential close histories against a scripted raw peer that echoes Close frames.
 //   role= co= mode= thr= steps=<step>|<step>...
-//   step = close~code~reasonhex | closenow | peerclose~payloadhex | write | writer | read | ping
+//   step = close~code~reasonhex | closenow | peerclose~payloadhex | write | writer | read | ping | pmsg~n~k~frags (the peer sends a message, the application reads k bytes of it)
 // Observation: res=<class>,<class>...  closes=<payloadhex>,...   (every Close frame the library wrote)  status=<CloseStatus of the peerclose read>
 
 func init() {
@@ -88,6 +89,19 @@ func genClose(r *Rng, tier string, stat func(string)) []string {
 	add("peerclose~-|"+after(), "peer-close-empty")
 	add("peerclose~03|"+afterOpen(), "peer-close-1byte")
 	add("write|peerclose~03e86279|"+after(), "peer-close-after-message")
+	// Close / CloseNow while a received message is unread or partly read: what is left of it is discarded while waiting for the
+	// peer's Close frame (pmsg~<bytes>~<bytes the application reads>~<fragments>; not a call of the model: it changes no close state)
+	for _, n := range []int{1, 125, 126, 300, 5000, 70000} {
+		for _, frags := range []int{1, 2, 3} {
+			for _, k := range []int{0, 1, n / 2, n - 1} {
+				if k >= n && k > 0 {
+					continue
+				}
+				add(fmt.Sprintf("pmsg~%d~%d~%d|close~1000~%s|%s", n, k, frags, Hex([]byte("bye")), after()), "close-with-unread-message")
+			}
+			add(fmt.Sprintf("pmsg~%d~%d~%d|closenow|%s", n, n/3, frags, after()), "closenow-with-unread-message")
+		}
+	}
 	// every order of Close / CloseNow pairs
 	for _, a := range []string{"close~1000~-", "closenow"} {
 		for _, b := range []string{"close~1000~-", "closenow", "close~4000~78"} {
@@ -136,6 +150,30 @@ func runClose(kv map[string]string) string {
 			_, _, err := c.Read(ctx)
 			res = append(res, normRes(err))
 			status = strconv.Itoa(int(websocket.CloseStatus(err)))
+		case "pmsg":
+			n, _ := strconv.Atoi(f[1])
+			k, _ := strconv.Atoi(f[2])
+			frags, _ := strconv.Atoi(f[3])
+			c.SetReadLimit(-1)
+			body := GenBytes("rand", n, n+k)
+			for i := 0; i < frags; i++ {
+				lo, hi := i*n/frags, (i+1)*n/frags
+				op := 2
+				if i > 0 {
+					op = 0
+				}
+				peer.send(rawFrame{Fin: i == frags-1, Opcode: byte(op), Payload: body[lo:hi]})
+				if i == 0 && frags > 1 {
+					peer.send(rawFrame{Fin: true, Opcode: 9, Payload: []byte("p")})
+				}
+			}
+			_, rd, err := c.Reader(ctx)
+			if err == nil && k > 0 {
+				_, err = io.ReadFull(rd, make([]byte, k))
+			}
+			if err != nil {
+				res = append(res, "pmsg-failed:"+normRes(err))
+			}
 		case "write":
 			res = append(res, normRes(c.Write(ctx, websocket.MessageText, []byte("hello"))))
 		case "writer":
